@@ -257,4 +257,6 @@ package parser
 //@   loop 1 invariant scanStep(s, old(s.srcPos))
 //@   loop 1 decreases len(s.src) - s.srcPos
 //@   loop 1 modifies s.srcPos, s.line, s.char
+//@   assert after call option.UnescapeString#*: [string-unescaping-only-for-string-literals] ch == 39 || (!s.ansiQuotes && ch == 34)
+//@   assert after call option.UnescapeIdentifier#*: [identifier-unescaping-only-for-quoted-identifiers] ch == 96 || (s.ansiQuotes && ch == 34) || ch == VariableSign
 //@   modifies s, fresh, key:E:string#0
